@@ -378,7 +378,13 @@ def binop(op, a, b, spec=False):
                 t = t * ta
             return mk(simp(t), "float", npres, nan)
         ta, tb = term_of(a0, "float"), term_of(b0, "float")
-        return mk(pow_fn()(ta, tb), "float", npres, nan)
+        t = pow_fn()(ta, tb)
+        if isinstance(a0, (int, float)) and not isinstance(a0, bool) and a0 > 0:
+            # axiom of the uninterpreted power: a positive (concrete) base to any real power is positive
+            I = CURRENT.get("interp")
+            if I is not None and getattr(I, "ctx", None) is not None:
+                I.ctx.assume(t > 0, "axiom pow: positive base")
+        return mk(t, "float", npres, nan)
     raise Untranslatable(f"binop {op}")
 
 
